@@ -221,6 +221,31 @@ Lemma find_type_known1 pf t : known_type t ->
   FFound p_type_known [fAlt pf 0 2 0; fRoot pf true].
 Proof. unfold known_type. intros H2. apply find_seq1_generic. now rewrite tm_known. Qed.
 
+(* alternative 3 of the root Choice: an IDENT that is neither ONLY/NOT nor a known media type nor "(" *)
+Lemma find_c0_alt3_generic p1 p2 x q1 y w p1' p3 z tk fu :
+  p_opt p1 = true -> tok_matches p1 (Some tk) = false -> p_opt p2 = false -> tok_matches p2 (Some tk) = false ->
+  p_opt q1 = false -> tok_matches q1 (Some tk) = false ->
+  p_opt p1' = true -> tok_matches p1' (Some tk) = false -> tok_matches p3 (Some tk) = true ->
+  find (S (S fu)) [FCho [PSeq [PProd p1; PProd p2; x] 1 (Some 1); PSeq [PSeq (PProd q1 :: y) 1 (Some 1); w] 1 (Some 1);
+                         PSeq [PProd p1'; PProd p3; z] 1 (Some 1)] false false] tk =
+  FFound p3 [FSeq [PProd p1'; PProd p3; z] 1 (Some 1) 2 0 true;
+             FCho [PSeq [PProd p1; PProd p2; x] 1 (Some 1); PSeq [PSeq (PProd q1 :: y) 1 (Some 1); w] 1 (Some 1);
+                   PSeq [PProd p1'; PProd p3; z] 1 (Some 1)] false true].
+Proof.
+  intros Ho1 H1 Ho2 H2 Hoq Hq Ho1' H1' H3.
+  cbn -[tmatches]. cbn [tmatches topt Nat.eqb]. rewrite H1, Ho1, H2, Ho2, Hq, Hoq, H1', Ho1', H3.
+  cbn -[tmatches]. cbn [tmatches topt]. rewrite H1', Ho1', H3. reflexivity.
+Qed.
+
+Definition unknown_type (t : str) : Prop := mem_s (normalize t) media_types = false /\ eqs t (s "(") = false.
+
+Lemma find_type_any0 pf t : not_neg t -> unknown_type t ->
+  find (find_fuel (c0 pf)) (c0 pf) (T "IDENT" t) = FFound p_type_any [fAlt pf 2 2 0; fRoot pf true].
+Proof.
+  unfold not_neg, unknown_type. intros H1 [H2 H3].
+  apply find_c0_alt3_generic; try reflexivity; try (rewrite tm_onlynot; assumption); [rewrite tm_known; assumption|exact H3].
+Qed.
+
 Lemma find_open0 pf :
   find (find_fuel (c0 pf)) (c0 pf) (ch "(") = FFound p_open [fE pf 1 0; fAlt pf 1 1 0; fRoot pf true].
 Proof. destruct pf; vm_compute; reflexivity. Qed.
@@ -231,6 +256,11 @@ Proof. destruct pf, b; vm_compute; reflexivity. Qed.
 Lemma find_and_T2 pf b :
   find (find_fuel [fE pf 0 1; fAlt pf 1 1 0; fRoot pf true]) [fE pf 0 1; fAlt pf 1 1 0; fRoot pf true] (kw b "and") =
   FFound (p_and false) (fAnd pf false 1 0 :: [fAlt pf 1 0 1; fRoot pf true]).
+Proof. destruct pf, b; vm_compute; reflexivity. Qed.
+
+Lemma find_and_T3 pf b :
+  find (find_fuel [fAlt pf 2 2 0; fRoot pf true]) [fAlt pf 2 2 0; fRoot pf true] (kw b "and") =
+  FFound (p_and true) (fAnd pf true 1 0 :: [fAlt pf 2 0 1; fRoot pf true]).
 Proof. destruct pf, b; vm_compute; reflexivity. Qed.
 
 Lemma final_R pf ns base rnd st : final (fE pf 0 1 :: fAnd pf ns 0 rnd :: base) st true = final base st true.
@@ -248,6 +278,8 @@ Proof.
 Qed.
 Lemma ready_T1 pf : ready pf true [fAlt pf 0 0 1; fRoot pf true] [fAlt pf 0 2 0; fRoot pf true].
 Proof. split; [exists 0; apply find_and_T1|]. destruct pf; split; reflexivity. Qed.
+Lemma ready_T3 pf : ready pf true [fAlt pf 2 0 1; fRoot pf true] [fAlt pf 2 2 0; fRoot pf true].
+Proof. split; [exists 0; apply find_and_T3|]. destruct pf; split; reflexivity. Qed.
 Lemma ready_T2 pf : ready pf false [fAlt pf 1 0 1; fRoot pf true] [fE pf 0 1; fAlt pf 1 1 0; fRoot pf true].
 Proof. split; [exists 0; apply find_and_T2|]. destruct pf; split; reflexivity. Qed.
 
@@ -337,7 +369,7 @@ End MQ.
    - expressions without values (me_val = None): stage 3 is not covered *)
 Definition wf_mq (q : mquery) : Prop :=
   match mq_type q with
-  | Some t => not_neg t /\ known_type t
+  | Some t => not_neg t /\ (known_type t \/ (mq_neg q = 0 /\ unknown_type t))
   | None => mq_exprs q <> []
   end /\ Forall (fun x => me_val (snd x) = None) (mq_exprs q).
 
@@ -385,14 +417,21 @@ Proof.
   set (sub := fun g' a' t' l' => pparse_sub d env_real g' a' (Some t') l'). set (po := postof_env env_real).
   unfold r_mquery, x_mquery, sto_mquery. destruct (mq_type q) as [t|] eqn:Et.
   - destruct Ht as [Hn Hk]. destruct (mq_neg q) as [|n] eqn:En.
-    + cbn [app].
-      rewrite (run_tok sub po (T "IDENT" t) p_type_known [fAlt false 0 2 0; fRoot false true]);
-        [|exact plain_ident|apply find_type_known0; assumption|reflexivity..].
-      cbn [p_store p_type_known P p_stopnm p_mayend orb negb val T].
-      change (rev ([] ++ tok_items [T "IDENT" t])) with (rev ([] ++ [IStr (s "IDENT") t])).
-      rewrite (run_tail sub po lay false true _ (proj2 (proj2 (ready_T1 false))) _ Hv _ [] (IStr (s "IDENT") t) _ _ _ 2 (ready_T1 false) eq_refl).
-      reflexivity.
-    + assert (Hnt : (if match n with 0 => true | _ => false end then T "IDENT" (cased lay (mq_gcase q) (s "only"))
+    + cbn [app]. destruct Hk as [Hk|[_ Hu]].
+      * rewrite (run_tok sub po (T "IDENT" t) p_type_known [fAlt false 0 2 0; fRoot false true]);
+          [|exact plain_ident|apply find_type_known0; assumption|reflexivity..].
+        cbn [p_store p_type_known P p_stopnm p_mayend orb negb val T].
+        change (rev ([] ++ tok_items [T "IDENT" t])) with (rev ([] ++ [IStr (s "IDENT") t])).
+        rewrite (run_tail sub po lay false true _ (proj2 (proj2 (ready_T1 false))) _ Hv _ [] (IStr (s "IDENT") t) _ _ _ 2 (ready_T1 false) eq_refl).
+        reflexivity.
+      * rewrite (run_tok sub po (T "IDENT" t) p_type_any [fAlt false 2 2 0; fRoot false true]);
+          [|exact plain_ident|apply find_type_any0; assumption|reflexivity..].
+        cbn [p_store p_type_any P p_stopnm p_mayend orb negb val T].
+        change (rev ([] ++ tok_items [T "IDENT" t])) with (rev ([] ++ [IStr (s "IDENT") t])).
+        rewrite (run_tail sub po lay false true _ (proj2 (proj2 (ready_T3 false))) _ Hv _ [] (IStr (s "IDENT") t) _ _ _ 2 (ready_T3 false) eq_refl).
+        reflexivity.
+    + destruct Hk as [Hk|[E0 _]]; [|congruence].
+      assert (Hnt : (if match n with 0 => true | _ => false end then T "IDENT" (cased lay (mq_gcase q) (s "only"))
                      else T "IDENT" (cased lay (mq_gcase q) (s "not"))) = negtok lay q)
         by (unfold negtok; rewrite En; destruct n; reflexivity).
       assert (Htoks : match S n with
@@ -475,7 +514,12 @@ Qed.
 (* the hypotheses are satisfiable: `ONLY screen and (color)` in a layout with comments *)
 Example media_query_accepts_ex :
   wf_mq (mkMQ 1 0 1 (Some (s "screen")) [(2, 3, 4, mkMExpr 0 (s "color") 1 None 2)]).
-Proof. split; [split; reflexivity|repeat constructor]. Qed.
+Proof. split; [split; [reflexivity|left; reflexivity]|repeat constructor]. Qed.
+
+(* a bare unknown media type takes alternative 3 of the root Choice *)
+Example media_query_accepts_ex3 :
+  wf_mq (mkMQ 0 0 1 (Some (s "foo")) [(2, 3, 4, mkMExpr 0 (s "color") 1 None 2)]).
+Proof. split; [split; [reflexivity|right; repeat split]|repeat constructor]. Qed.
 
 (* ------------------------------------------------------------------ the sequence, token by token *)
 Lemma tok_items_cons t l : tok_items (t :: l) = tok_items [t] ++ tok_items l.
